@@ -105,6 +105,9 @@ def oracle_component(order, sents, ntypes, o):
     if order == 1:
         exp.setdefault((0,), 0)
         exp.setdefault((1,), 0)
+    # n-grams whose total is 0 (the two special unigrams of order 1) carry no count: their presence is not C07's business
+    tot = {k: v for k, v in tot.items() if v}
+    exp = {k: v for k, v in exp.items() if v}
     if tot != exp:
         for k in sorted(set(tot) | set(exp)):
             if tot.get(k) != exp.get(k):
@@ -139,7 +142,7 @@ def run_lmplz(ctx, tool, corpus, order, cfg, tag, extra=()):
     # strace only counts ftruncate calls: Sort::Merge truncates the consumed data file and resets the offsets log once
     # per merge pass, so the count is a measured indicator of how many merge passes the run performed
     stlog = os.path.join(wd, "strace.log")
-    rc, out, err = vlib.sh(["strace", "-f", "-qq", "-e", "trace=ftruncate", "-o", stlog] + cmd, timeout=150)
+    rc, out, err = vlib.sh(list(cfg.get("_prefix", [])) + ["strace", "-f", "-qq", "-e", "trace=ftruncate", "-o", stlog] + cmd, timeout=150)
     truncs = 0
     if os.path.exists(stlog):
         truncs = sum(1 for l in open(stlog, errors="replace") if "ftruncate(" in l)
@@ -163,7 +166,7 @@ def run_lmplz(ctx, tool, corpus, order, cfg, tag, extra=()):
     else:
         res = ("crash", "rc=%d %s" % (rc, err[-400:]))
     shutil.rmtree(wd, ignore_errors=True)
-    return res[0], res[1], " ".join(cmd[2:])
+    return res[0], res[1], " ".join(list(cfg.get("_prefix", [])) + cmd[2:])
 
 
 def lattice(rng, big):
@@ -229,8 +232,21 @@ def run(ctx):
             iline = "CC %x %x %x %x %s" % (order, bc, mem, ve, path)
             mline = "CC %x %x %s" % (order, cap, " ".join(" ".join(hx(w) for w in s) + " /" for s in sents).replace("  ", " "))
             comp.append((iline, mline, order, sents, len(vocab), cap))
-    for l in corpus_component():
-        comp.append(l)
+    # hand-made boundary corpora (corpus/C07/*.txt): every order 1..4 x capacities 1, 2, 3, 5 -- run first in the oracle's order
+    hand = []
+    for path in sorted(glob.glob(os.path.join(vlib.ROOT, "corpus", "C07", "*.txt"))):
+        lines = open(path).read().split("\n")
+        if lines and lines[-1] == "":
+            lines.pop()
+        sents, vocab = ids_of(lines)
+        for order in (1, 2, 3, 4):
+            es = 4 * order + 8
+            for cap in (1, 2, 3, 5):
+                iline = "CC %x %x %x %x %s" % (order, 1, cap * es, 3, path)
+                mline = ("CC %x %x %s" % (order, cap, " ".join(" ".join(hx(w) for w in s) + " /" for s in sents))).replace("  ", " ")
+                hand.append((iline, mline, order, sents, len(vocab), cap))
+    ctx.count("corpus_cases", len(hand))
+    comp = hand + comp
     iout = vlib.run_lines(impl, [c[0] for c in comp], timeout=600, env=env)
     mismatches = []
     model_broken = None
@@ -273,7 +289,11 @@ def run(ctx):
         ref = None
         per_cfg = []
         cfgs = list(lat)
-        reps = [cfgs[0], cfgs[6], cfgs[10]] * ctx.pick(1, 3)   # repeated runs of the same configuration (thread scheduling varies)
+        # repeated runs of the same configuration: the OS schedules the worker threads differently each time; pinning every
+        # thread to one CPU (taskset) and lowering the priority (nice) forces very different interleavings
+        reps = [cfgs[0], cfgs[6], cfgs[10]] * ctx.pick(1, 3)
+        reps += [dict(cfgs[6], _prefix=["taskset", "-c", "0"]), dict(cfgs[10], _prefix=["taskset", "-c", "0"]),
+                 dict(cfgs[0], _prefix=["nice", "-n", "19", "taskset", "-c", "0,1"])]
         for j, cfg in enumerate(cfgs + reps):
             kind, res, cmdline = run_lmplz(ctx, tool, path, order, cfg, "%s-%d" % (name, j))
             tool_runs += 1
@@ -313,7 +333,7 @@ def run(ctx):
     ctx.coverage["traces_validated_against_impl"] = len(comp) - len(mismatches)
     for c, o in list(zip(comp, iout))[:3]:
         ctx.sample({"driver_case": c[0], "impl": o[:300]})
-    ctx.assumptions += ["scheduling is varied only by repeated runs under the OS scheduler (no controlled pre-emption inside lmplz)",
+    ctx.assumptions += ["scheduling is varied by repeated runs under the OS scheduler, by pinning all threads to one CPU (taskset) and by nice; there is no controlled pre-emption inside lmplz",
                         "vocabulary ids of the model are first-occurrence numbers computed by the harness (GrowableVocab's numbering is checked by the oracle through the type count and the records)",
                         "extraction (ExtrOcamlBasic only), OCaml/C++ drivers and the Python oracle are trusted"]
     for sig, rep, msg in spec_fail[:5]:
@@ -329,10 +349,6 @@ def run(ctx):
         ctx.report_proof(pres)
     ctx.coverage["spec_oracle_failures"] = len(spec_fail)
     ctx.coverage["correspondence_mismatches"] = len(mismatches)
-
-
-def corpus_component():
-    return []
 
 
 def replay(ctx, obj):
